@@ -48,7 +48,6 @@ type vmInput struct {
 func runVM(in *vmInput) (hx.Case, error) {
 	var log []rev
 	r0, i0, o0 := tracing.VerifRegistrySizes()
-	var o obs
 	done := false
 	ctrlSent, ctrlAcked := 0, 0
 	panicked, msg := hx.Try(func() {
@@ -156,43 +155,10 @@ func runVM(in *vmInput) (hx.Case, error) {
 	if panicked {
 		return hx.Case{}, fmt.Errorf("vm stack panicked: %s", msg)
 	}
-	r1, i1, o1 := tracing.VerifRegistrySizes()
-	o.Regs = [3]int{r1 - r0, i1 - i0, o1 - o0}
-	o.Events = len(log)
-	o.Done = done
-	o.Kinds = map[string]int{}
-	for _, e := range log {
-		if e.K == "s" {
-			o.Tasks++
-			o.Kinds[e.Kind]++
-		}
+	c, o, quiescent, err := finish(log, [3]int{r0, i0, o0}, done, ctrlSent, ctrlAcked)
+	if err != nil {
+		return hx.Case{}, err
 	}
-	for _, dlt := range o.Regs {
-		if dlt < 0 {
-			return hx.Case{}, fmt.Errorf("registry shrank during the case: %v", o.Regs)
-		}
-	}
-	// quiescent: the whole history was issued and every control verb - the closing
-	// Enable+Reset rounds included - was carried out and acknowledged
-	quiescent := done && ctrlAcked == ctrlSent
-	first, open := localWF(log, quiescent)
-	o.FirstBad = first
-	if len(open) > 12 {
-		open = open[:12]
-	}
-	o.Open = open
-	if first != "" {
-		n := len(log)
-		if n > 30 {
-			o.TraceTail = log[n-30:]
-		} else {
-			o.TraceTail = log
-		}
-	}
-	c := hx.Case{Obs: o}
-	goVerdict := first == "" && (!quiescent || o.Regs == [3]int{})
-	c.Coq = hx.App("AsmCase", hx.B(quiescent), traceTerm(log),
-		hx.T(hx.N(uint64(o.Regs[0])), hx.N(uint64(o.Regs[1])), hx.N(uint64(o.Regs[2]))), hx.B(goVerdict))
 	resets, mid, seen, total := 0, false, 0, 0
 	for _, op := range in.Script {
 		if op.K == "x" {
@@ -225,6 +191,49 @@ func runVM(in *vmInput) (hx.Case, error) {
 		c.Known = "no_buffer_tracing_dangling_milestone"
 	}
 	return c, nil
+}
+
+// finish turns a recorded run into a case: registry deltas, the Go-side verdict
+// and the Coq term. quiescent: the whole history was issued and every control
+// verb - the closing Enable+Reset rounds included - was carried out and acknowledged.
+func finish(log []rev, regs0 [3]int, done bool, ctrlSent, ctrlAcked int) (hx.Case, obs, bool, error) {
+	var o obs
+	r1, i1, o1 := tracing.VerifRegistrySizes()
+	o.Regs = [3]int{r1 - regs0[0], i1 - regs0[1], o1 - regs0[2]}
+	o.Events = len(log)
+	o.Done = done
+	o.Kinds = map[string]int{}
+	for _, e := range log {
+		if e.K == "s" {
+			o.Tasks++
+			o.Kinds[e.Kind]++
+		}
+	}
+	for _, dlt := range o.Regs {
+		if dlt < 0 {
+			return hx.Case{}, o, false, fmt.Errorf("registry shrank during the case: %v", o.Regs)
+		}
+	}
+	quiescent := done && ctrlAcked == ctrlSent
+	first, open := localWF(log, quiescent)
+	o.FirstBad = first
+	if len(open) > 12 {
+		open = open[:12]
+	}
+	o.Open = open
+	if first != "" {
+		n := len(log)
+		if n > 30 {
+			o.TraceTail = log[n-30:]
+		} else {
+			o.TraceTail = log
+		}
+	}
+	c := hx.Case{Obs: o}
+	goVerdict := first == "" && (!quiescent || o.Regs == [3]int{})
+	c.Coq = hx.App("AsmCase", hx.B(quiescent), traceTerm(log),
+		hx.T(hx.N(uint64(o.Regs[0])), hx.N(uint64(o.Regs[1])), hx.N(uint64(o.Regs[2]))), hx.B(goVerdict))
+	return c, o, quiescent, nil
 }
 
 // traceTerm prints a recorded event list as a Coq list of trace events,
